@@ -105,6 +105,20 @@ Please note that in --auto-detect mode, phylip format is considered as not stric
 func readsequences(file string) (sequences align.SeqBag, err error) {
 	var fi goio.Closer
 	var r *bufio.Reader
+	var alphabet int
+
+	// --alphabet applies to unaligned sequences as well
+	switch rootalphabet {
+	case "auto":
+		alphabet = align.BOTH
+	case "nt":
+		alphabet = align.NUCLEOTIDS
+	case "aa":
+		alphabet = align.AMINOACIDS
+	default:
+		err = fmt.Errorf("given alphabet is not supported: %s", rootalphabet)
+		return
+	}
 
 	if fi, r, err = utils.GetReader(file); err != nil {
 		return
@@ -113,6 +127,7 @@ func readsequences(file string) (sequences align.SeqBag, err error) {
 
 	p := fasta.NewParser(r)
 	p.IgnoreIdentical(ignoreidentical)
+	p.Alphabet(alphabet)
 	if sequences, err = p.ParseUnalign(); err != nil {
 		return
 	}
